@@ -650,7 +650,7 @@ CORPUS = [
     # a prior that reaches the region where the trajectory overflows and the cost is NaN: such trials must be rejected
     dict(model="SIR", tmax=40.0, nobs=8, obs=["I", "R"], loss="SquareLoss", constraint=None, seed=4242, kind="corpus",
          pars=[dict(name="beta", dist="unif", args=[0.2, 0.8], log=False), dict(name="gamma", dist="norm", args=[0.3, 5.0], log=False)],
-         calls=[dict(kind="get", N=14, tol="inf", G=2, q=0.5)]),
+         calls=[dict(kind="get", N=14, tol=1e5, G=1)]),
 ]
 
 
